@@ -177,7 +177,7 @@ pub fn gen_shut_case(tape: &[u32], which: Which, iterations: u32) -> ShutCase {
     let mut lru_cap = None;
     if which == Which::Readers && t.chance(1, 3) {
         pf.kinds[5] = 4;
-        lru_cap = Some(1 + t.pick(2) as u8);
+        lru_cap = Some(1 + t.pick(4) as u8 / 3);
     }
     let prog = gen_program(&mut t, &pf);
     let nt = 2 + t.pick(3);
@@ -191,9 +191,32 @@ pub fn gen_shut_case(tape: &[u32], which: Which, iterations: u32) -> ShutCase {
     }
     let (write, phase2) = if t.chance(1, 2) {
         let slot = t.pick(prog.slots.len() as u32) as u8;
-        let w = (slot, t.pick(2) as u8, t.pick(VMOD));
+        let mut w = (slot, t.pick(2) as u8, t.pick(VMOD));
         let nt2 = 2 + t.pick(2);
-        let plans = (0..nt2).map(|_| gen_plan(&mut t, &prog, which, 3)).collect();
+        let mut plans: Vec<Vec<TOp>> = (0..nt2).map(|_| gen_plan(&mut t, &prog, which, 3)).collect();
+        if which == Which::Readers {
+            // most writes hit a field the program reads
+            let looked_at = if_guards(&prog);
+            if !looked_at.is_empty() && t.chance(3, 4) {
+                let (s, f, _) = looked_at[t.pick(looked_at.len() as u32) as usize];
+                w = (s, f, w.2);
+            }
+            // two threads start the new revision at two different callers of one shared callee
+            // (concurrent validation of different dependants of the same sub-query)
+            if t.chance(1, 2) {
+                let n = prog.nodes.len();
+                let callers_of = |c: u8| -> Vec<u8> { (0..n as u8).filter(|i| *i != c && static_callees(&prog.nodes[*i as usize].body).contains(&c)).collect() };
+                let shared: Vec<u8> = (0..n as u8).filter(|c| callers_of(*c).len() >= 2).collect();
+                if !shared.is_empty() {
+                    let c = shared[t.pick(shared.len() as u32) as usize];
+                    let cs = callers_of(c);
+                    let a = t.pick(cs.len() as u32) as usize;
+                    let b = (a + 1 + t.pick(cs.len() as u32 - 1) as usize) % cs.len();
+                    plans[0].insert(0, TOp::Get { node: cs[a], arg: 0 });
+                    plans[1].insert(0, TOp::Get { node: cs[b], arg: 0 });
+                }
+            }
+        }
         // Listed findings of the sequential cyclic properties are excluded by construction here
         // (a panic cannot be classified under shuttle): no second revision for programs with
         // cycle_result functions (c13-kf1/kf2), and the write never reshapes the call graph
@@ -214,7 +237,7 @@ pub fn gen_shut_case(tape: &[u32], which: Which, iterations: u32) -> ShutCase {
         (None, vec![])
     };
     let lru_cap = if prog.nodes.iter().any(|n| n.kind == Kind::Lru) { lru_cap } else { None };
-    let sweep = which == Which::Readers && write.is_some() && t.chance(1, 2);
+    let sweep = which == Which::Readers && write.is_some() && (lru_cap.is_some() || t.chance(1, 2));
     ShutCase { prog, phase1, write, phase2, sched, sched_seed, iterations, lru_cap, sweep }
 }
 
@@ -542,7 +565,13 @@ pub fn run_shut_case(which: Which, case: &ShutCase) -> SeqOutcome {
         salsa::verif_hooks::start();
         let mut r1 = run_phase(&world, &case.phase1);
         if case.sweep {
-            let all: Vec<TOp> = case.prog.nodes.iter().enumerate().flat_map(|(n, node)| (0..node.nargs).map(move |a| TOp::Get { node: n as u8, arg: a })).collect();
+            let mut all: Vec<TOp> = case.prog.nodes.iter().enumerate().flat_map(|(n, node)| (0..node.nargs).map(move |a| TOp::Get { node: n as u8, arg: a })).collect();
+            // the order decides which lru keys are the most recently used ones (and survive)
+            let off = (case.sched_seed % all.len() as u64) as usize;
+            all.rotate_left(off);
+            if (case.sched_seed >> 32) & 1 == 1 {
+                all.reverse();
+            }
             r1.extend(run_phase(&world, &[all]));
         }
         let log1 = world.take_log();
